@@ -1104,7 +1104,7 @@ package scipipe
 
 //@ func (*InPort).CloseConnection(pt, rptName)
 //@   props C04 C05
-//@   modifies pt.RemotePorts[*], chan(pt.Chan), locked, closeCalls
+//@   modifies pt.RemotePorts[*], chanclose, locked, closeCalls
 //@   ghost set closeCalls = update(closeCalls, pt, closeCalls[pt] + 1)
 //@   ensures removed: !(rptName in pt.RemotePorts)
 //@   ensures others: forall k string :: k != rptName ==> ((k in pt.RemotePorts) <==> old(k in pt.RemotePorts)) && pt.RemotePorts[k] == old(pt.RemotePorts[k])
@@ -1120,7 +1120,7 @@ package scipipe
 //@   props C04 C05
 //@   requires wf: wfOutPort(pt) && wfPortKeys(pt) && pt.process != nil
 //@   requires in-ports-distinct-maps: forall r string :: r in pt.RemotePorts ==> pt.RemotePorts[r].RemotePorts != nil
-//@   modifies pt.RemotePorts[*], map[string]*OutPort, chan, locked, closeCalls
+//@   modifies pt.RemotePorts[*], map[string]*OutPort, chanclose, locked, closeCalls
 //@   ensures all-disconnected: forall r string :: !(r in pt.RemotePorts)
 //@   ensures each-remote-notified-once[C04,C05]: forall r string :: old(r in pt.RemotePorts) ==> closeCalls[old(pt.RemotePorts[r])] == old(closeCalls)[old(pt.RemotePorts[r])] + 1
 //@   ensures removed-from-remote[C04]: forall r string :: old(r in pt.RemotePorts) ==> !((procName(pt.process) + "." + pt.name) in old(pt.RemotePorts[r]).RemotePorts)
@@ -1166,7 +1166,7 @@ package scipipe
 
 //@ func (*InParamPort).CloseConnection(pip, popName)
 //@   props C04 C05
-//@   modifies pip.RemotePorts[*], chan(pip.Chan), locked, pcloseCalls
+//@   modifies pip.RemotePorts[*], chanclose, locked, pcloseCalls
 //@   ghost set pcloseCalls = update(pcloseCalls, pip, pcloseCalls[pip] + 1)
 //@   ensures removed: !(popName in pip.RemotePorts)
 //@   ensures others: forall k string :: k != popName ==> ((k in pip.RemotePorts) <==> old(k in pip.RemotePorts)) && pip.RemotePorts[k] == old(pip.RemotePorts[k])
@@ -1181,7 +1181,7 @@ package scipipe
 //@ func (*OutParamPort).Close(pop)
 //@   props C04 C05
 //@   requires wf: wfOutParamPort(pop) && wfParamPortKeys(pop) && pop.process != nil
-//@   modifies pop.RemotePorts[*], map[string]*OutParamPort, chan, locked, pcloseCalls
+//@   modifies pop.RemotePorts[*], map[string]*OutParamPort, chanclose, locked, pcloseCalls
 //@   ensures all-disconnected: forall r string :: !(r in pop.RemotePorts)
 //@   ensures each-remote-notified-once[C04,C05]: forall r string :: old(r in pop.RemotePorts) ==> pcloseCalls[old(pop.RemotePorts[r])] == old(pcloseCalls)[old(pop.RemotePorts[r])] + 1
 //@   ensures nothing-sent: forall c chan string :: !fresh(c) ==> chanSentN(c) == old(chanSentN(c))
@@ -1456,3 +1456,10 @@ package scipipe
 //@   loop 0 invariant streamed-at-start[C17]: forall o string :: o in p.PathFuncs && streamPort(p, o) ==> outN[p.outPorts[o]] == old(outN)[p.outPorts[o]] + nRecv(p)
 //@   ensures every-task-forwarded[C04,C05]: forall o string :: o in p.PathFuncs && !streamPort(p, o) ==> outN[p.outPorts[o]] == old(outN)[p.outPorts[o]] + chanTotal(curTasks[p])
 //@   ensures one-execute-per-task[C04]: execSpawned == old(execSpawned) + chanTotal(curTasks[p])
+
+//@ define wfOutPortsToClose(p *BaseProcess) bool = p.outPorts != nil && (forall o string :: o in p.outPorts ==> p.outPorts[o] != nil && wfOutPort(p.outPorts[o]) && wfPortKeys(p.outPorts[o]) && p.outPorts[o].process != nil && (forall r string :: r in p.outPorts[o].RemotePorts ==> p.outPorts[o].RemotePorts[r].RemotePorts != nil))
+//@ func (*BaseProcess).CloseOutPorts(p)
+//@   props C04 C05
+//@   requires wf: wfOutPortsToClose(p)
+//@   modifies map[string]*InPort, map[string]*OutPort, chanclose, locked, closeCalls
+//@   ensures nothing-sent: outN == old(outN) && outAt == old(outAt)
